@@ -198,13 +198,14 @@ pub fn permute(op: u8, c: usize, r: usize) {
         0 => t.swap((nd::below(c), nd::below(r)), (nd::below(c), nd::below(r))),
         1 => t.swap_rows(nd::below(r), nd::below(r)),
         2 => t.swap_cols(nd::below(c), nd::below(c)),
-        3 => t.sort_by_row(nd::below(r), |a, b| a.val.cmp(&b.val)),
-        4 => t.sort_by_col(nd::below(c), |a, b| a.val.cmp(&b.val)),
+        // key line concrete: a symbolic line index makes the slice handed to std's sort symbolic in position and (for CBMC) in length
+        3 => t.sort_by_row(r - 1, |a, b| a.val.cmp(&b.val)),
+        4 => t.sort_by_col(c - 1, |a, b| a.val.cmp(&b.val)),
         5 => t.translate_with_wrap((nd::upto(c), 1)),
         6 => t.flip_rows(),
         7 => t.flip_cols(),
-        8 => t.sort_unstable_by_row(nd::below(r), |a, b| a.val.cmp(&b.val)),
-        _ => t.sort_unstable_by_col(nd::below(c), |a, b| a.val.cmp(&b.val)),
+        8 => t.sort_unstable_by_row(r - 1, |a, b| a.val.cmp(&b.val)),
+        _ => t.sort_unstable_by_col(c - 1, |a, b| a.val.cmp(&b.val)),
     }
     inv(&t);
     assert!(t.size() == (c, r), "ORACLE: in-place operation changed the shape");
